@@ -3,7 +3,7 @@
    tokens      an expression is a sequence of tokens: each parenthesis is a token, and so is every maximal run of other
                non-whitespace characters (whitespace = the 29 code points of str.isspace; it only separates).
    letters     "any letter case" is ASCII case: two tokens are the same word when they agree after folding A-Z to a-z.
-   grammar     simple   ::= id | id "+"                 id a known licence id, or "LicenseRef-" followed by letters digits . -
+   grammar     simple   ::= id | id "+"                 id a known licence id, or "LicenseRef-" followed by one or more letters digits . -
                operand  ::= simple | simple WITH exc | "(" expr ")"       exc a known exception id
                expr     ::= operand ((AND | OR) operand)*
                recognised by the automaton Lic.spdx_ok (operands and operators alternate, WITH only directly after a simple
@@ -15,8 +15,9 @@
    The tables are parameters: lists of (key, official id); the specification uses only the official ids.
 
    Where the property text is silent the specification follows the code, and says so here: "LicenseRef-x+" is taken as well-formed
-   (SPDX proper has no "+" on a LicenseRef); the suffix of a LicenseRef may be empty ("LicenseRef-" alone; SPDX wants one character
-   at least); an id of the table that itself ends in "+" (the deprecated "GPL-2.0+" ...) may carry a further "+". *)
+   (SPDX proper has no "+" on a LicenseRef); an id of the table that itself ends in "+" (the deprecated "GPL-2.0+" ...) may carry a
+   further "+" (license-id "+", within SPDX proper).  The suffix (idstring) of a LicenseRef is not empty (SPDX: 1*(...); the code
+   rejects "LicenseRef-" since fix 8e6ceae). *)
 From Coq Require Import List NArith Bool.
 Import ListNotations.
 Require Import VParse LicModel LicAuto.
@@ -52,7 +53,7 @@ Variables lics excs : list (str * str).
 Definition lic_canon (w : str) : option str :=
   let '(core, plus) := strip_plus w in
   if prefixb licenseref_lc (afold core) then
-    if forallb ref_char core then Some (licenseref_prefix ++ skipn 11 core ++ plus) else None
+    if forallb ref_char core && nonemptyb (skipn 11 core) then Some (licenseref_prefix ++ skipn 11 core ++ plus) else None
   else match find_id core (map snd lics) with Some id => Some (id ++ plus) | None => None end.
 Definition exc_canon (w : str) : option str := find_id w (map snd excs).
 
